@@ -46,6 +46,13 @@ def launch(pid, part, tier, seed, shard, nshards, mode, out, target=None, shrink
     return subprocess.Popen(cmd, cwd=ROOT, env=child_env(), stdout=log, stderr=subprocess.STDOUT)
 
 
+# development overrides (tools/mutation.py runs many checks side by side against scratch copies of the repository):
+#   OPV_OUT     directory that receives evidence/ and replays/ instead of /verif
+#   OPV_SHARDS  number of shard processes (the case budget is unchanged)
+#   OPV_NO_SHRINK=1  skip the shrink pass (the collected example becomes the replay)
+OUT_ROOT = os.environ.get("OPV_OUT") or ROOT
+
+
 def rel(path):
     return os.path.relpath(path, ROOT)
 
@@ -53,7 +60,7 @@ def rel(path):
 def write_replay(pid, part, case, failed, detail, seed, origin):
     from opv.core.engine import canon, case_hash
 
-    d = os.path.join(ROOT, "replays", pid)
+    d = os.path.join(OUT_ROOT, "replays", pid)
     os.makedirs(d, exist_ok=True)
     p = os.path.join(d, f"{part}_{case_hash(case)}.json")
     with open(p, "w") as fh:
@@ -121,7 +128,7 @@ def run(pid, tier, seed, a):
     t0 = time.time()
     mod = engine.load_module(pid)
     parts = [p for p in mod.PARTS if not a.parts or p.name in a.parts.split(",")]
-    nshards = SHARDS[tier]
+    nshards = int(os.environ.get("OPV_SHARDS") or SHARDS[tier])
     work = tempfile.mkdtemp(prefix=f"opv_{pid}_")
     procs = []
     try:
@@ -212,7 +219,7 @@ def run(pid, tier, seed, a):
             if not g:
                 continue
             for i, (b, slot) in enumerate(sorted(g["buckets"].items(), key=lambda kv: -kv[1]["count"])):
-                if i < MAX_SHRUNK_BUCKETS:
+                if i < MAX_SHRUNK_BUCKETS and not os.environ.get("OPV_NO_SHRINK"):
                     out = os.path.join(work, f"shrink_{part.name}_{i}.json")
                     shrink_jobs.append((part, b, slot, out, launch(pid, part.name, tier, seed, slot["shard"], nshards, "shrink", out, target=b, shrink_seconds=SHRINK_SECONDS[tier])))
                 else:
@@ -306,8 +313,8 @@ def run(pid, tier, seed, a):
             "wall_s": round(time.time() - t0, 1),
             "violations": len(violations),
         }
-        os.makedirs(os.path.join(ROOT, "evidence"), exist_ok=True)
-        with open(os.path.join(ROOT, "evidence", f"{pid}.json"), "w") as fh:
+        os.makedirs(os.path.join(OUT_ROOT, "evidence"), exist_ok=True)
+        with open(os.path.join(OUT_ROOT, "evidence", f"{pid}.json"), "w") as fh:
             fh.write(engine.canon(ev) if False else json.dumps(json.loads(engine.canon(ev)), indent=1, sort_keys=True))
 
         for part in parts:
